@@ -8,7 +8,8 @@ input (stdin):
     <opcode> <operand>...         operands: r:<reg>  i:<hex64>  m:<ty>:<hexdisp>:<base|->:<index|->:<scale>  l:<n>
     label <n> | call|inline <callee> <nres> <result operands> <argument operands> | switch <opd> l:<n>...
   endfunc
-  lower <0|1>                     print `simplifyFunc` of every function read so far (1 = rounding fix variant)
+  lower <abc>                     print `simplifyFunc` of every function read so far; flags a = round always,
+                                  b = MULO rows present, c = fresh return temporaries (`010` = mir.c as it is)
   run <entry> <hex a0..a3>        MirCore on the program as written; entry is `f (p buf, i64 a0..a3)`
   ecall <entry> <hex args>        the same for an entry that takes exactly these integer arguments
   ecalls <0|1> <entry> <hex args> … on the model-simplified program
@@ -287,6 +288,12 @@ def runEntry {ρ : Type} [DecidableEq ρ] (P : Prog ρ) (mk : String → ρ) (en
           | _ => "?")
         s!"P {entry} {hex r} log{g.log.length}\nM {bytes}\nL {logs}"
 
+/-- three flags `<always><muloRow><freshRets>`, e.g. `010` = the code as it is -/
+def optsOf (v : String) : Opts :=
+  match v.toList with
+  | [a, m, f] => { always := a == '1', muloRow := m == '1', freshRets := f == '1' }
+  | _ => {}
+
 def step (st : DState) (toks : List String) : DState × Option String :=
   match toks with
   | "func" :: hd =>
@@ -299,7 +306,7 @@ def step (st : DState) (toks : List String) : DState × Option String :=
   | ["reset"] => ({}, none)
   | ["lower", v] =>
     let out := st.funcs.map fun (f, locs) =>
-      let sf := simplifyFunc (v == "1") f
+      let sf := simplifyFunc (optsOf v) f
       let used := f.params.map (·.1) ++ locs
       let n := countTemps sf
       let tn := (tempNames used (n + used.length + 2) 1 n).toArray
@@ -312,10 +319,10 @@ def step (st : DState) (toks : List String) : DState × Option String :=
     let P : Prog String := st.funcs.map (·.1)
     (st, some (runEntry P id entry (args.map fun h => BitVec.ofNat 64 (parseHexN h)) false))
   | "ecalls" :: v :: entry :: args =>
-    let P : Prog R := st.funcs.map fun (f, _) => simplifyFunc (v == "1") f
+    let P : Prog R := st.funcs.map fun (f, _) => simplifyFunc (optsOf v) f
     (st, some (runEntry P R.user entry (args.map fun h => BitVec.ofNat 64 (parseHexN h)) false))
   | "runs" :: v :: entry :: args =>
-    let P : Prog R := st.funcs.map fun (f, _) => simplifyFunc (v == "1") f
+    let P : Prog R := st.funcs.map fun (f, _) => simplifyFunc (optsOf v) f
     (st, some (runEntry P R.user entry (args.map fun h => BitVec.ofNat 64 (parseHexN h))))
   | [] | [""] => (st, none)
   | toks =>
